@@ -236,19 +236,25 @@ func (cons *VesaFbConsole) Scroll(dir ScrollDir, lines uint32) {
 		return
 	}
 
-	offset := cons.fbOffset(0, lines*cons.font.GlyphHeight-cons.offsetY)
+	// Move the pixel rows of the text grid one by one: the bytes between the
+	// end of a row and the next multiple of the pitch are padding, and the
+	// rows above (logo) and below the grid do not take part in scrolling.
+	var (
+		rowSize   = cons.width * cons.bytesPerPixel
+		textRows  = cons.heightInChars * cons.font.GlyphHeight
+		shiftRows = lines * cons.font.GlyphHeight
+	)
 
 	switch dir {
 	case ScrollDirUp:
-		startOffset := cons.fbOffset(0, 0)
-		endOffset := cons.fbOffset(0, cons.height-lines*cons.font.GlyphHeight-cons.offsetY)
-		for i := startOffset; i < endOffset; i++ {
-			cons.fb[i] = cons.fb[i+offset]
+		for y := uint32(0); y+shiftRows < textRows; y++ {
+			dst, src := cons.fbOffset(0, y), cons.fbOffset(0, y+shiftRows)
+			copy(cons.fb[dst:dst+rowSize], cons.fb[src:src+rowSize])
 		}
 	case ScrollDirDown:
-		startOffset := cons.fbOffset(0, lines*cons.font.GlyphHeight)
-		for i := uint32(len(cons.fb) - 1); i >= startOffset; i-- {
-			cons.fb[i] = cons.fb[i-offset]
+		for y := textRows; y > shiftRows; y-- {
+			dst, src := cons.fbOffset(0, y-1), cons.fbOffset(0, y-1-shiftRows)
+			copy(cons.fb[dst:dst+rowSize], cons.fb[src:src+rowSize])
 		}
 	}
 }
